@@ -476,9 +476,10 @@ sys.exit(0 if torch.allclose(o, ref, rtol=1e-5, atol=1e-6) else 1)
 def tasks(tier, seed=0):
     ts = [("normal_task", dict(layout=l, xshape=a, locshape=b, scshape=c)) for (l, a, b, c) in _normal_layouts(tier)]
     ts += [("weibull_task", dict(family="w", n=2, e=1, with_sources=False)), ("weibull_task", dict(family="ws", n=2, e=1, with_sources=True))]
+    ts += [("weibull_task", dict(family="w", n=2, e=2, with_sources=False)), ("weibull_task", dict(family="ws", n=2, e=2, with_sources=True))]
     ts += [("weibull_penalty_task", dict(with_sources=False)), ("weibull_penalty_task", dict(with_sources=True))]
     ts += [("bernoulli_task", {}), ("mixture_task", {})]
     if tier == "thorough":
-        ts += [("weibull_task", dict(family="w", n=2, e=2, with_sources=False)), ("weibull_task", dict(family="ws", n=2, e=2, with_sources=True)),
+        ts += [("weibull_task", dict(family="w", n=3, e=2, with_sources=False)), ("weibull_task", dict(family="ws", n=2, e=3, with_sources=True)),
                ("weibull_task", dict(family="w", n=3, e=1, with_sources=False))]
     return ts
